@@ -10,7 +10,7 @@
                         oracle [ups i : msg -> option msg] ([None] = every upstream failed)
       drop_resp         plugin/executable/drop_resp/drop_resp.go
     wrapping executables ([wrap_o], they receive the rest of the chain)
-      cache             plugin/executable/cache/cache.go (Exec) + utils.go, lazy cache off
+      cache             plugin/executable/cache/cache.go (Exec, doLazyUpdate) + utils.go
       redirect          plugin/executable/redirect/redirect.go
       ecs_handler       plugin/executable/ecs_handler/handler.go
       forward_edns0opt  plugin/executable/forward_edns0opt/forwarder.go
@@ -31,7 +31,10 @@
     before secondary); with plugins whose shared state is touched under
     different keys by the two runs this is one of the equivalent interleavings.
 
-    Not modelled: lazy cache refresh.
+    The lazy cache refresh (a goroutine running the rest of the chain on a
+    copy) is sequenced before the foreground continuation; when it is held up
+    or fails, as the drivers arrange for overlapping hits, that is one of the
+    equivalent orders.
 
     Executable model only; the proofs are in Proofs/Handler.v. *)
 From Verif Require Import Base.Prelude Gen.Constants Model.Msg Model.Handler Model.Sequence.
@@ -46,20 +49,35 @@ Record world := World {
   w_store : N -> store;          (* one store per cache instance *)
   w_log : list (N * msg);        (* (upstream, message) handed to an upstream, newest first *)
   w_next : N;                    (* allocation counter: object identities, clock reads *)
-  w_pref : N -> list bytes       (* per dual_selector: names known to have the preferred type *)
+  w_pref : N -> list bytes;      (* per dual_selector: names known to have the preferred type *)
+  w_stale : list (N * bytes);    (* (cache, key): the stored message has expired, the entry is retained (lazy cache) *)
+  w_sf : bool                    (* a lazy update is in flight (singleflight): further ones are not started *)
 }.
 
 Definition state := (ctx * world)%type.
 
-Definition bump (w : world) : world := World (w_store w) (w_log w) (w_next w + 1) (w_pref w).
+Definition bump (w : world) : world := World (w_store w) (w_log w) (w_next w + 1) (w_pref w) (w_stale w) (w_sf w).
 Definition log_up (w : world) (u : N) (m : msg) : world :=
-  World (w_store w) ((u, m) :: w_log w) (w_next w) (w_pref w).
+  World (w_store w) ((u, m) :: w_log w) (w_next w) (w_pref w) (w_stale w) (w_sf w).
 Definition put_store (w : world) (inst : N) (st : store) : world :=
-  World (fun i => if i =? inst then st else w_store w i) (w_log w) (w_next w) (w_pref w).
+  World (fun i => if i =? inst then st else w_store w i) (w_log w) (w_next w) (w_pref w) (w_stale w) (w_sf w).
 Definition add_pref (w : world) (inst : N) (name : bytes) : world :=
-  World (w_store w) (w_log w) (w_next w) (fun i => if i =? inst then name :: w_pref w i else w_pref w i).
-Definition clear_log (w : world) : world := World (w_store w) [] (w_next w) (w_pref w).
-Definition empty_world : world := World (fun _ => []) [] 1 (fun _ => []).
+  World (w_store w) (w_log w) (w_next w) (fun i => if i =? inst then name :: w_pref w i else w_pref w i)
+        (w_stale w) (w_sf w).
+Definition clear_log (w : world) : world := World (w_store w) [] (w_next w) (w_pref w) (w_stale w) (w_sf w).
+Definition same_entry (inst : N) (key : bytes) (p : N * bytes) : bool :=
+  (fst p =? inst) && list_eqb N.eqb (snd p) key.
+(** a fresh store under (inst, key): the entry is not stale any more *)
+Definition unstale (w : world) (inst : N) (key : bytes) : world :=
+  World (w_store w) (w_log w) (w_next w) (w_pref w)
+        (filter (fun p => negb (same_entry inst key p)) (w_stale w)) (w_sf w).
+(** time passes: every stored message expires, the entries are retained *)
+Definition expire_all (w : world) (insts : list N) : world :=
+  World (w_store w) (w_log w) (w_next w) (w_pref w)
+        (flat_map (fun i => map (fun e => (i, fst e)) (w_store w i)) insts ++ w_stale w) (w_sf w).
+Definition set_sf (w : world) (b : bool) : world :=
+  World (w_store w) (w_log w) (w_next w) (w_pref w) (w_stale w) b.
+Definition empty_world : world := World (fun _ => []) [] 1 (fun _ => []) [] false.
 
 (** Context.Copy(): query, response and response OPT are deep copies (so
     writes to the copy never reach the original and vice versa), client OPT
@@ -148,7 +166,7 @@ Definition set_opt (s : state) (o : option msg) : state * option N :=
   match o with Some r => (set_fresh s r, None) | None => (s, None) end.
 
 Inductive wplugin :=
-| WCache (inst : N)
+| WCache (inst : N) (lazy : N)                (* lazy_cache_ttl, 0 = off *)
 | WRedirect (f : bytes -> option bytes)      (* the domain matcher: name -> target *)
 | WEcs (fwd send : bool) (preset : option addr) (mask4 mask6 : N)
 | WFwdOpt (codes : list N)
@@ -245,38 +263,56 @@ Section Plugins.
     else 0.
 
   Definition save (inst : N) (key : bytes) (r : msg) (w : world) : world :=
-    if 0 <? save_ttl r then put_store w inst ((key, copy_no_opt r) :: w_store w inst) else w.
+    if 0 <? save_ttl r then unstale (put_store w inst ((key, copy_no_opt r) :: w_store w inst)) inst key else w.
 
-  (** getRespFromCache *)
+  (** getRespFromCache, entry not expired *)
   Definition get_cached (key : bytes) (st : store) (now : N) : option msg :=
     match lookup key st with
     | Some v => match clock now with Some d => Some (subtract_ttl d v) | None => None end
     | None => None
     end.
 
-  Definition cache_exec (inst : N) (k : state -> outcome state) (s : state) : outcome state :=
+  (** getRespFromCache: the response handed out, and whether it is a lazy hit
+      (message expired, entry retained, lazy cache on: a copy with all TTLs 5) *)
+  Definition cache_find (inst lazy : N) (key : bytes) (w : world) : option msg * bool :=
+    if existsb (same_entry inst key) (w_stale w) then
+      if 0 <? lazy then
+        match lookup key (w_store w inst) with
+        | Some v => (Some (set_ttl cache_expired_msg_ttl v), true)
+        | None => (None, false)
+        end
+      else (None, false)
+    else (get_cached key (w_store w inst) (w_next w), false).
+
+  (** r != nil && answersQuestion(r, q): saveRespToCache *)
+  Definition try_save (inst : N) (key : bytes) (c2 : ctx) (w2 : world) : world :=
+    match c_resp c2 with
+    | Some r => if answers_question r (c_query c2) then save inst key r w2 else w2
+    | None => w2
+    end.
+
+  Definition cache_exec (inst lazy : N) (k : state -> outcome state) (s : state) : outcome state :=
     let (c, w) := s in
     let q := c_query c in
     match msg_key q with
     | None => k s                                   (* skip cache *)
     | Some key =>
       let rid := w_next w in
-      let cached := get_cached key (w_store w inst) rid in
+      let found := cache_find inst lazy key w in
       let w1 := bump w in
-      let c1 := match cached with
+      (* doLazyUpdate: the rest of the chain on a copy taken before the cached
+         response is set; whatever response it ends with is stored *)
+      let w1 := if snd found && negb (w_sf w1)
+                then let '(_, (cb, wb), _) := k (ctx_copy (c, w1)) in try_save inst key cb wb
+                else w1 in
+      let c1 := match fst found with
                 | Some r => set_response c rid (with_id r (m_id q))    (* change msg id *)
                 | None => c
                 end in
       let '(t, (c2, w2), err) := k (c1, w1) in
       (* r != nil && cachedResp != r && answersQuestion(r, q) *)
-      let w3 :=
-        match c_resp c2 with
-        | Some r =>
-          let same := match cached with Some _ => c_rid c2 =? rid | None => false end in
-          if negb same && answers_question r (c_query c2) then save inst key r w2 else w2
-        | None => w2
-        end in
-      (t, (c2, w3), err)
+      let same := match fst found with Some _ => c_rid c2 =? rid | None => false end in
+      (t, (c2, if same then w2 else try_save inst key c2 w2), err)
     end.
 
   (** *** redirect *)
@@ -483,7 +519,7 @@ Section Plugins.
 
   Definition wrap_w (p : wplugin) : (state -> outcome state) -> state -> outcome state :=
     match p with
-    | WCache inst => cache_exec inst
+    | WCache inst lazy => cache_exec inst lazy
     | WRedirect f => redirect_exec f
     | WEcs fwd send preset m4 m6 => ecs_exec fwd send preset m4 m6
     | WFwdOpt codes => fwdopt_exec codes
